@@ -13,6 +13,7 @@ import (
 	"testing"
 
 	"github.com/gogpu/naga"
+	"github.com/gogpu/naga/ir"
 	"github.com/gogpu/naga/spirv"
 	"pgregory.net/rapid"
 
@@ -42,12 +43,23 @@ func options(o map[string]string) spirv.Options {
 	if maj == 0 {
 		maj, mnr = 1, 3
 	}
+	pol := func(k string) spirv.BoundsCheckPolicy {
+		switch o[k] {
+		case "1":
+			return spirv.BoundsCheckRestrict
+		case "2":
+			return spirv.BoundsCheckReadZeroSkipWrite
+		}
+		return spirv.BoundsCheckUnchecked
+	}
 	return spirv.Options{
-		Version:               spirv.Version{Major: uint8(maj), Minor: uint8(mnr)},
-		Debug:                 o["debug"] == "1",
-		ForcePointSize:        o["pointsize"] == "1",
-		AdjustCoordinateSpace: o["adjust"] == "1",
-		ForceLoopBounding:     o["loopbound"] == "1",
+		Version:                 spirv.Version{Major: uint8(maj), Minor: uint8(mnr)},
+		Debug:                   o["debug"] == "1",
+		ForcePointSize:          o["pointsize"] == "1",
+		AdjustCoordinateSpace:   o["adjust"] == "1",
+		ForceLoopBounding:       o["loopbound"] == "1",
+		UseStorageInputOutput16: o["io16"] == "1",
+		BoundsCheckPolicies:     spirv.BoundsCheckPolicies{ImageLoad: pol("imgload"), ImageStore: pol("imgstore"), Index: pol("index")},
 	}
 }
 
@@ -73,6 +85,12 @@ func compile(c *Case) (v verdict) {
 	if err != nil {
 		return verdict{rejected: "lower: " + err.Error()}
 	}
+	if c.Opts["overrides"] == "1" {
+		// pipeline-overridable constants must be resolved before code generation (all take their defaults)
+		if err := ir.ProcessOverrides(m, nil); err != nil {
+			return verdict{rejected: "overrides: " + err.Error()}
+		}
+	}
 	bin, err := naga.GenerateSPIRV(m, options(c.Opts))
 	if err != nil {
 		return verdict{rejected: "spirv: " + err.Error()}
@@ -85,9 +103,9 @@ func compile(c *Case) (v verdict) {
 }
 
 // suppressed reports whether an issue belongs to an open known finding.
-func suppressed(i spv.Issue) bool {
+func suppressed(i spv.Issue, c *Case, m *spv.Module) bool {
 	for _, k := range knownIssueTags {
-		if k.match(i) && ev.ExcludedQuiet(k.tag) {
+		if ev.ExcludedQuiet(k.tag) && k.match(i, c, m) {
 			ev.Class("known:" + k.tag)
 			return true
 		}
@@ -97,10 +115,56 @@ func suppressed(i spv.Issue) bool {
 
 type issueTag struct {
 	tag   string
-	match func(spv.Issue) bool
+	match func(i spv.Issue, c *Case, m *spv.Module) bool
 }
 
-var knownIssueTags = []issueTag{}
+// opNear reports whether one of the n instructions before inst has one of the opcodes.
+func opNear(m *spv.Module, inst, n int, ops ...uint16) bool {
+	for k := inst - 1; k >= 0 && k >= inst-n && k < len(m.Insts); k-- {
+		for _, op := range ops {
+			if m.Insts[k].Op == op {
+				return true
+			}
+		}
+	}
+	return false
+}
+
+func instOp(m *spv.Module, inst int) uint16 {
+	if inst < 0 || inst >= len(m.Insts) {
+		return 0xffff
+	}
+	return m.Insts[inst].Op
+}
+
+// knownIssueTags: result-side suppression of validator issues that belong to an open finding.
+// Every matcher is as narrow as the defect allows: rule id + message shape + the option / opcode
+// context that triggers the defect.
+var knownIssueTags = []issueTag{
+	// C02-1: ReadZeroSkipWrite image loads branch on the bounds test without OpSelectionMerge
+	{"c02.rzsw-image-load.no-merge", func(i spv.Issue, c *Case, m *spv.Module) bool {
+		return i.Rule == "cfg.merge-missing" && c.Opts["imgload"] == "2" && strings.HasPrefix(i.Msg, "OpBranchConditional with 2 non-merge successors") &&
+			opNear(m, i.Inst, 4, spv.OpImageQuerySize, spv.OpImageQuerySizeLod, spv.OpImageQuerySamples, spv.OpImageQueryLevels)
+	}},
+	// C02-2: Restrict image loads with unsigned coordinates build vecN<u32> constants from the i32 constant 1
+	{"c02.restrict-image-load.const-type", func(i spv.Issue, c *Case, m *spv.Module) bool {
+		return i.Rule == "const.type" && c.Opts["imgload"] == "1" && strings.Contains(i.Msg, "has type i32, want u32") && instOp(m, i.Inst) == spv.OpConstantComposite
+	}},
+	// C02-3: ir.ProcessOverrides folds a comparison between an override and a constant to a literal of the
+	// operand type instead of bool
+	{"c02.override.compare-fold", func(i spv.Issue, c *Case, m *spv.Module) bool {
+		if c.Opts["overrides"] != "1" {
+			return false
+		}
+		switch i.Rule {
+		case "branch.condition":
+			return strings.Contains(i.Msg, "is not bool")
+		case "type.select":
+			return strings.Contains(i.Msg, "condition type") && strings.Contains(i.Msg, "is not a bool")
+		}
+		return false
+	}},
+}
 
 func judgeValid(raw json.RawMessage) (bool, string) {
 	var c Case
@@ -145,8 +209,10 @@ var versions = []string{"1.0", "1.1", "1.2", "1.3", "1.4", "1.5", "1.6"}
 
 func drawOpts(t *rapid.T) map[string]string {
 	b := func(l string) string { return fmt.Sprint(rapid.IntRange(0, 1).Draw(t, l)) }
+	p := func(l string) string { return fmt.Sprint(rapid.IntRange(0, 2).Draw(t, l)) }
 	return map[string]string{"version": versions[rapid.IntRange(0, 6).Draw(t, "version")], "debug": b("debug"),
-		"pointsize": b("pointsize"), "adjust": b("adjust"), "loopbound": b("loopbound")}
+		"pointsize": b("pointsize"), "adjust": b("adjust"), "loopbound": b("loopbound"), "io16": b("io16"),
+		"imgload": p("imgload"), "imgstore": p("imgstore"), "index": p("index")}
 }
 
 func check(t *rapid.T, c *Case, classes []string) {
@@ -178,7 +244,7 @@ func check(t *rapid.T, c *Case, classes []string) {
 	}
 	var left []spv.Issue
 	for _, i := range v.issues {
-		if !suppressed(i) {
+		if !suppressed(i, c, v.mod) {
 			left = append(left, i)
 		}
 	}
@@ -190,7 +256,7 @@ func check(t *rapid.T, c *Case, classes []string) {
 }
 
 func TestPropGenerated(t *testing.T) {
-	ev.Rule("generated exec-profile programs and the 172-file corpus x SPIR-V versions 1.0-1.6 x {debug, ForcePointSize, AdjustCoordinateSpace, ForceLoopBounding}; oracle: independent SPIR-V reader + validator of the universal rules (header/bound, section order, ids defined once and dominating uses, unique non-aggregate types, per-opcode operand kinds and type relations, block termination, structured control flow, entry-point interfaces, Vulkan layout/interface decorations, capabilities/extensions); non-trivial = module has a selection/loop construct or a struct/array/matrix type; distinct = hash(WGSL, options)")
+	ev.Rule("generated exec-profile programs, generated full-profile modules (vertex/fragment/compute entry points, IO structs, textures, samplers, shared bindings, atomics) and the 172-file corpus x SPIR-V versions 1.0-1.6 x {debug, ForcePointSize, AdjustCoordinateSpace, ForceLoopBounding, UseStorageInputOutput16, image-load / image-store / index bounds-check policies}; oracle: independent SPIR-V reader + validator of the universal rules (header/bound, section order, ids defined once and dominating uses, unique non-aggregate types, per-opcode operand kinds and type relations, block termination, structured control flow, entry-point interfaces, Vulkan layout/interface decorations, capabilities/extensions); non-trivial = module has a selection/loop construct or a struct/array/matrix type; distinct = hash(WGSL, options)")
 	ev.Assume("verif/internal/spv.Validate encodes only rules its author is certain are universal; opcodes outside its operand table are counted as unchecked")
 	rapid.Check(t, func(t *rapid.T) {
 		f := wgen.DefaultFeatures()
@@ -198,6 +264,20 @@ func TestPropGenerated(t *testing.T) {
 		f.Off = func(tag string) bool { return ev.Excluded(tag) || ev.Excluded("spv."+tag) }
 		gc := wgen.GenExec(t, f)
 		check(t, &Case{WGSL: gc.Src, Opts: drawOpts(t)}, gc.Classes)
+	})
+}
+
+func TestPropFull(t *testing.T) {
+	rapid.Check(t, func(t *rapid.T) {
+		off := func(tag string) bool { return ev.Excluded(tag) || ev.Excluded("spv."+tag) }
+		fc := wgen.GenFull(t, wgen.FullFeatures{Off: off})
+		c := &Case{WGSL: fc.Src, Opts: drawOpts(t)}
+		for _, cl := range fc.Classes {
+			if cl == "override" {
+				c.Opts["overrides"] = "1"
+			}
+		}
+		check(t, c, append([]string{"full"}, fc.Classes...))
 	})
 }
 
@@ -225,6 +305,9 @@ func TestPropCorpus(t *testing.T) {
 	rapid.Check(t, func(t *rapid.T) {
 		i := rapid.IntRange(0, len(corpus)-1).Draw(t, "file")
 		c := &Case{WGSL: corpus[i], Opts: drawOpts(t), Name: corpusName[i]}
+		if strings.Contains(corpus[i], "override ") {
+			c.Opts["overrides"] = "1"
+		}
 		if ev.ExcludedQuiet("c02.corpus." + corpusName[i]) {
 			ev.Class("excluded:corpus-file")
 			return
